@@ -145,7 +145,7 @@ identifier denotes block `b` the answer is the projection of `b` itself — its 
 parent, root, its own transactions in order, its own state diff — with the finality of `b`;
 when it denotes nothing the answer is BLOCK_NOT_FOUND. -/
 theorem block_methods_answer_denoted_block (ver : Ver) (nd : Node) (id : BlockId) (f : List Nat)
-    (wf : WellFormed nd) (hv : ¬ (ver = .v8 ∧ id = .l1Accepted)) :
+    (wf : WellFormed nd) (hv : ¬ (ver = .v8 ∧ id = .l1Accepted)) (hp : isV8Pending ver id = false) :
     match resolvedBlock nd id with
     | some b =>
       blockWithTxHashes ver nd id = .blockHashes (hdrOf nd b) (b.txs.map (·.hash)) ∧
@@ -160,7 +160,8 @@ theorem block_methods_answer_denoted_block (ver : Ver) (nd : Node) (id : BlockId
       blockWithReceipts ver nd id = .err .blockNotFound ∧
       blockTransactionCount ver nd id = .err .blockNotFound ∧
       stateUpdate ver nd id f = .err .blockNotFound := by
-  rw [blockWithTxHashes_eq wf hv, blockWithTxs_eq wf hv, blockWithReceipts_eq hv,
+  obtain ⟨e1, e2, e3, e4, _, e6⟩ := handlers_eq_stored nd 0 f hp
+  rw [e1, e2, e3, e4, e6, blockWithTxHashes_eq wf hv, blockWithTxs_eq wf hv, blockWithReceipts_eq hv,
     blockTransactionCount_eq hv, stateUpdate_eq f hv]
   cases resolvedBlock nd id <;> simp
 
@@ -172,13 +173,14 @@ theorem resolvedBlock_spec (nd : Node) (id : BlockId) :
 
 /-- BLOCK_NOT_FOUND precisely when the chain lacks the block (block methods). -/
 theorem block_methods_notfound_iff (ver : Ver) (nd : Node) (id : BlockId) (wf : WellFormed nd)
-    (hv : ¬ (ver = .v8 ∧ id = .l1Accepted)) :
+    (hv : ¬ (ver = .v8 ∧ id = .l1Accepted)) (hp : isV8Pending ver id = false) :
     (blockWithTxHashes ver nd id = .err .blockNotFound ↔ resolve nd id = none) ∧
     (blockWithTxs ver nd id = .err .blockNotFound ↔ resolve nd id = none) ∧
     (blockWithReceipts ver nd id = .err .blockNotFound ↔ resolve nd id = none) ∧
     (blockTransactionCount ver nd id = .err .blockNotFound ↔ resolve nd id = none) ∧
     (stateUpdate ver nd id [] = .err .blockNotFound ↔ resolve nd id = none) := by
-  rw [blockWithTxHashes_eq wf hv, blockWithTxs_eq wf hv, blockWithReceipts_eq hv,
+  obtain ⟨e1, e2, e3, e4, _, e6⟩ := handlers_eq_stored nd 0 [] hp
+  rw [e1, e2, e3, e4, e6, blockWithTxHashes_eq wf hv, blockWithTxs_eq wf hv, blockWithReceipts_eq hv,
     blockTransactionCount_eq hv, stateUpdate_eq [] hv, ← resolvedBlock_none_iff]
   cases resolvedBlock nd id <;> simp
 
@@ -187,7 +189,8 @@ theorem v8_rejects_l1_accepted (nd : Node) :
     blockWithTxHashes .v8 nd .l1Accepted = .err .invalidParams ∧
     stateUpdate .v8 nd .l1Accepted [] = .err .invalidParams ∧
     transactionByBlockIdAndIndex .v8 nd .l1Accepted 0 = .err .invalidParams := by
-  simp [blockWithTxHashes, blockById, stateUpdate, transactionByBlockIdAndIndex]
+  simp [blockWithTxHashes, blockWithTxHashesStored, blockById, stateUpdate, stateUpdateStored,
+    transactionByBlockIdAndIndex, transactionByBlockIdAndIndexStored, isV8Pending]
 
 /-- blockNumber / blockHashAndNumber: the head, or "no blocks" on the empty chain. -/
 theorem head_methods (nd : Node) (wf : WellFormed nd) :
@@ -230,18 +233,20 @@ It fails for `block_number` identifiers above the height, see
 its end; when nothing is denoted BLOCK_NOT_FOUND — unless the identifier is a block number, in
 which case INVALID_TXN_INDEX. -/
 theorem txByIdx_exact (ver : Ver) (nd : Node) (id : BlockId) (i : Nat) (wf : WellFormed nd)
-    (hv : ¬ (ver = .v8 ∧ id = .l1Accepted)) :
+    (hv : ¬ (ver = .v8 ∧ id = .l1Accepted)) (hp : isV8Pending ver id = false) :
     transactionByBlockIdAndIndex ver nd id i =
       match resolvedBlock nd id with
       | some b => (match b.txs[i]? with | some t => .tx t | none => .err .invalidTxIndex)
-      | none => if id.isNumber then .err .invalidTxIndex else .err .blockNotFound :=
-  transactionByBlockIdAndIndex_eq i wf hv
+      | none => if id.isNumber then .err .invalidTxIndex else .err .blockNotFound := by
+  rw [(handlers_eq_stored nd i [] hp).2.2.2.2.1]
+  exact transactionByBlockIdAndIndex_eq i wf hv
 
 /-- BLOCK_NOT_FOUND iff the chain lacks the block — for identifiers that are not block numbers. -/
 theorem txByIdx_notfound_iff_partial (ver : Ver) (nd : Node) (id : BlockId) (i : Nat)
-    (wf : WellFormed nd) (hv : ¬ (ver = .v8 ∧ id = .l1Accepted)) (hn : id.isNumber = false) :
+    (wf : WellFormed nd) (hv : ¬ (ver = .v8 ∧ id = .l1Accepted)) (hp : isV8Pending ver id = false)
+    (hn : id.isNumber = false) :
     transactionByBlockIdAndIndex ver nd id i = .err .blockNotFound ↔ resolve nd id = none := by
-  rw [transactionByBlockIdAndIndex_eq i wf hv, ← resolvedBlock_none_iff]
+  rw [(handlers_eq_stored nd i [] hp).2.2.2.2.1, transactionByBlockIdAndIndex_eq i wf hv, ← resolvedBlock_none_iff]
   cases resolvedBlock nd id with
   | none => simp [hn]
   | some b => simp only []; split <;> simp
@@ -412,18 +417,258 @@ theorem versions_agree (nd : Node) (id : BlockId) (i a c : Nat) (be : Backend)
     (classByHash be .v8 nd id c = classByHash be .v9 nd id c ∧ classByHash be .v9 nd id c = classByHash be .v10 nd id c) ∧
     (classAt be .v8 nd id a = classAt be .v9 nd id a ∧ classAt be .v9 nd id a = classAt be .v10 nd id a) := by
   obtain ⟨h1, h2⟩ := h8
-  cases id <;> first | exact absurd rfl h1 | exact absurd rfl h2 | (simp [blockWithTxHashes, blockWithTxs, blockWithReceipts, stateUpdate, filterDiff, transactionByBlockIdAndIndex, nonce, classHashAt, classByHash, classAt, blockById, stateById])
+  cases id <;> first | exact absurd rfl h1 | exact absurd rfl h2 | (simp [blockWithTxHashes, blockWithTxs, blockWithReceipts, stateUpdate, filterDiff, transactionByBlockIdAndIndex, blockWithTxHashesStored, blockWithTxsStored, blockWithReceiptsStored, stateUpdateStored, transactionByBlockIdAndIndexStored, isV8Pending, nonce, classHashAt, classByHash, classAt, blockById, stateById])
 
 /-- The transaction count agrees across versions too (v8 reads the header's count, v9/v10 the
 count by number) on well-formed nodes. -/
-theorem versions_agree_txCount (nd : Node) (id : BlockId) (h8 : id ≠ .l1Accepted) :
+theorem versions_agree_txCount (nd : Node) (id : BlockId) (h8 : id ≠ .l1Accepted) (h8' : id ≠ .pre) :
     blockTransactionCount .v8 nd id = blockTransactionCount .v9 nd id ∧
       blockTransactionCount .v9 nd id = blockTransactionCount .v10 nd id := by
+  have p8 : isV8Pending .v8 id = false := (isV8Pending_false_iff _ _).mpr (fun h => h8' h.2)
+  have p9 : isV8Pending .v9 id = false := by simp [isV8Pending]
+  have p10 : isV8Pending .v10 id = false := by simp [isV8Pending]
+  rw [(handlers_eq_stored nd 0 [] p8).2.2.2.1, (handlers_eq_stored nd 0 [] p9).2.2.2.1,
+    (handlers_eq_stored nd 0 [] p10).2.2.2.1]
   have hv8 : ¬ (Ver.v8 = .v8 ∧ id = .l1Accepted) := fun h => h8 h.2
   have hv9 : ¬ (Ver.v9 = .v8 ∧ id = .l1Accepted) := fun h => by cases h.1
   have hv10 : ¬ (Ver.v10 = .v8 ∧ id = .l1Accepted) := fun h => by cases h.1
   rw [blockTransactionCount_eq hv8, blockTransactionCount_eq hv9, blockTransactionCount_eq hv10]
   exact ⟨rfl, rfl⟩
+
+/-! ## The wire layer: decoding of block ids, dispatch, refusals -/
+
+/-- `BlockID.UnmarshalJSON`, all versions: `latest`; an object's `block_hash` wins over its
+`block_number`; `{}` and non-ids are refused; v8 knows `pending` but neither `l1_accepted` nor
+`pre_confirmed`; v9 / v10 know those two but not `pending`. -/
+theorem decode_spec :
+    (∀ ver, decodeId ver (.tag "latest") = .ok .latest) ∧
+    (∀ ver h n, decodeId ver (.obj (some h) n) = .ok (.hash h)) ∧
+    (∀ ver n, decodeId ver (.obj none (some n)) = .ok (.number n)) ∧
+    (∀ ver, decodeId ver (.obj none none) = .error .invalidParams ∧ decodeId ver .other = .error .invalidParams) ∧
+    (decodeId .v8 (.tag "pending") = .ok .pre ∧ decodeId .v8 (.tag "l1_accepted") = .error .invalidParams ∧
+      decodeId .v8 (.tag "pre_confirmed") = .error .invalidParams) ∧
+    (∀ ver, ver ≠ .v8 → decodeId ver (.tag "pending") = .error .invalidParams ∧
+      decodeId ver (.tag "l1_accepted") = .ok .l1Accepted ∧ decodeId ver (.tag "pre_confirmed") = .ok .pre) := by
+  refine ⟨?_, ?_, ?_, ?_, ?_, ?_⟩
+  · intro ver; cases ver <;> simp [decodeId]
+  · intro ver h n; cases ver <;> rfl
+  · intro ver n; cases ver <;> rfl
+  · intro ver; cases ver <;> exact ⟨rfl, rfl⟩
+  · simp [decodeId]
+  · intro ver hv; cases ver
+    · exact absurd rfl hv
+    · simp [decodeId]
+    · simp [decodeId]
+
+/-- A string that is not one of the version's tags is refused. -/
+theorem decode_unknown_tag (ver : Ver) (s : String)
+    (h : s ≠ "latest" ∧ s ≠ "pending" ∧ s ≠ "pre_confirmed" ∧ s ≠ "l1_accepted") :
+    decodeId ver (.tag s) = .error .invalidParams := by
+  obtain ⟨h1, h2, h3, h4⟩ := h
+  cases ver <;> simp [decodeId, h1, h2, h3, h4]
+
+/-- Whatever cannot be decoded as a block id of the version is answered "invalid params" by
+every method that takes one, before any handler runs. -/
+theorem serve_refuses_undecodable (be : Backend) (ver : Ver) (nd : Node) (raw : RawId) (e : Err)
+    (h : decodeId ver raw = .error e) (f : List Nat) (i : Int) (a k c : Nat) :
+    e = .invalidParams ∧
+    serve be ver nd (.blockWithTxHashes raw) = .err .invalidParams ∧
+    serve be ver nd (.blockWithTxs raw) = .err .invalidParams ∧
+    serve be ver nd (.blockWithReceipts raw) = .err .invalidParams ∧
+    serve be ver nd (.blockTransactionCount raw) = .err .invalidParams ∧
+    serve be ver nd (.stateUpdate raw f) = .err .invalidParams ∧
+    serve be ver nd (.transactionByBlockIdAndIndex raw i) = .err .invalidParams ∧
+    serve be ver nd (.storageAt a k raw) = .err .invalidParams ∧
+    serve be ver nd (.nonce raw a) = .err .invalidParams ∧
+    serve be ver nd (.classHashAt raw a) = .err .invalidParams ∧
+    serve be ver nd (.classByHash raw c) = .err .invalidParams ∧
+    serve be ver nd (.classAt raw a) = .err .invalidParams := by
+  have he : e = .invalidParams := by
+    cases raw with
+    | tag s =>
+      simp only [decodeId] at h
+      split at h
+      · cases h
+      · cases ver <;> simp only at h <;> (repeat' split at h) <;> cases h <;> rfl
+    | obj hh nn => cases hh <;> cases nn <;> simp [decodeId] at h <;> exact h.symm
+    | other => simp [decodeId] at h; exact h.symm
+  subst he
+  simp [serve, withId, h]
+
+/-- A decodable id is handed to the handler of the method (dispatch), and a v8 id is never
+`l1_accepted`. -/
+theorem serve_dispatch (be : Backend) (ver : Ver) (nd : Node) (raw : RawId) (id : BlockId)
+    (h : decodeId ver raw = .ok id) (f : List Nat) (i : Nat) (a k c : Nat) :
+    ¬ (ver = .v8 ∧ id = .l1Accepted) ∧
+    serve be ver nd (.blockWithTxHashes raw) = blockWithTxHashes ver nd id ∧
+    serve be ver nd (.blockWithTxs raw) = blockWithTxs ver nd id ∧
+    serve be ver nd (.blockWithReceipts raw) = blockWithReceipts ver nd id ∧
+    serve be ver nd (.blockTransactionCount raw) = blockTransactionCount ver nd id ∧
+    serve be ver nd (.stateUpdate raw f) = stateUpdate ver nd id f ∧
+    serve be ver nd (.transactionByBlockIdAndIndex raw (Int.ofNat i)) = transactionByBlockIdAndIndex ver nd id i ∧
+    serve be ver nd (.storageAt a k raw) = storageAt be ver nd id a k ∧
+    serve be ver nd (.nonce raw a) = nonce be ver nd id a ∧
+    serve be ver nd (.classHashAt raw a) = classHashAt be ver nd id a ∧
+    serve be ver nd (.classByHash raw c) = classByHash be ver nd id c ∧
+    serve be ver nd (.classAt raw a) = classAt be ver nd id a := by
+  refine ⟨?_, ?_⟩
+  · rintro ⟨hv, hi⟩
+    subst hv
+    exact decodeId_v8_never_l1 raw id h hi
+  · have hneg : ¬ ((i : Int) < 0) := by omega
+    simp [serve, withId, h, hneg]
+
+/-- A negative transaction index is INVALID_TXN_INDEX whatever the (decodable) block id. -/
+theorem negative_index (be : Backend) (ver : Ver) (nd : Node) (raw : RawId) (id : BlockId) (i : Int)
+    (h : decodeId ver raw = .ok id) (hi : i < 0) :
+    serve be ver nd (.transactionByBlockIdAndIndex raw i) = .err .invalidTxIndex := by
+  simp [serve, withId, h, hi]
+
+/-- End to end for the block methods: request in wire form → answer, on any reachable node. -/
+theorem serve_block_methods_reachable (be : Backend) (ver : Ver) (ops : List Op) (raw : RawId) (id : BlockId)
+    (h : decodeId ver raw = .ok id) (hp : isV8Pending ver id = false) :
+    let nd := run ops
+    match resolvedBlock nd id with
+    | some b =>
+      serve be ver nd (.blockWithTxHashes raw) = .blockHashes (hdrOf nd b) (b.txs.map (·.hash)) ∧
+      serve be ver nd (.blockWithTxs raw) = .blockTxs (hdrOf nd b) b.txs ∧
+      serve be ver nd (.blockWithReceipts raw) =
+        .blockReceipts (hdrOf nd b) (b.txs.map (fun t => (t, finality b.number nd.l1))) ∧
+      serve be ver nd (.blockTransactionCount raw) = .num b.txs.length ∧
+      serve be ver nd (.stateUpdate raw []) = .update b.hash b.root b.oldRoot (filterDiff ver [] b.diff)
+    | none =>
+      serve be ver nd (.blockWithTxHashes raw) = .err .blockNotFound ∧
+      serve be ver nd (.blockWithTxs raw) = .err .blockNotFound ∧
+      serve be ver nd (.blockWithReceipts raw) = .err .blockNotFound ∧
+      serve be ver nd (.blockTransactionCount raw) = .err .blockNotFound ∧
+      serve be ver nd (.stateUpdate raw []) = .err .blockNotFound := by
+  intro nd
+  obtain ⟨hv, e1, e2, e3, e4, e5, _⟩ := serve_dispatch be ver nd raw id h [] 0 0 0 0
+  rw [e1, e2, e3, e4, e5]
+  exact block_methods_answer_denoted_block ver nd id [] (run_wellFormed ops) hv hp
+
+/-! ## v8 `pending` -/
+
+/-- rpc/v8 serves `pending` (no pending data) as a synthetic EMPTY block on top of the head: no
+transactions (count 0, every index invalid), parent = head hash, old root = head root, and a
+state diff that is empty below height 10 and otherwise records the hash of block `n - 10` in the
+block-hash contract 0x1; on the empty chain everything is BLOCK_NOT_FOUND. The state methods on
+`pending` read the head state (`stateById`). -/
+theorem v8_pending_answers (nd : Node) (wf : WellFormed nd) (i : Nat) (f : List Nat) :
+    match resolvedBlock nd .latest with
+    | none =>
+      blockWithTxHashes .v8 nd .pre = .err .blockNotFound ∧ blockWithTxs .v8 nd .pre = .err .blockNotFound ∧
+      blockWithReceipts .v8 nd .pre = .err .blockNotFound ∧ blockTransactionCount .v8 nd .pre = .err .blockNotFound ∧
+      transactionByBlockIdAndIndex .v8 nd .pre i = .err .blockNotFound ∧ stateUpdate .v8 nd .pre f = .err .blockNotFound
+    | some h =>
+      blockWithTxHashes .v8 nd .pre = .pendingBlock h.hash ∧ blockWithTxs .v8 nd .pre = .pendingBlock h.hash ∧
+      blockWithReceipts .v8 nd .pre = .pendingBlock h.hash ∧ blockTransactionCount .v8 nd .pre = .num 0 ∧
+      transactionByBlockIdAndIndex .v8 nd .pre i = .err .invalidTxIndex ∧
+      stateUpdate .v8 nd .pre f = .pendingUpdate h.root
+        (if h.number + 1 < blockHashLag then {}
+         else { storage := [(1, h.number + 1 - blockHashLag,
+                 match nd.chain[h.number + 1 - blockHashLag]? with | some b => b.hash | none => 0)] }) := by
+  have hp := pendingOf_eq wf
+  cases hh : resolvedBlock nd .latest with
+  | none =>
+    rw [hh] at hp
+    simp only at hp
+    simp [blockWithTxHashes, blockWithTxs, blockWithReceipts, blockTransactionCount,
+      transactionByBlockIdAndIndex, stateUpdate, isV8Pending, hp]
+  | some h =>
+    rw [hh] at hp
+    simp only at hp
+    simp [blockWithTxHashes, blockWithTxs, blockWithReceipts, blockTransactionCount,
+      transactionByBlockIdAndIndex, stateUpdate, isV8Pending, hp] <;> rfl
+
+/-! ## Reachable nodes: storage needs no side condition; by-hash lookups are complete -/
+
+/-- `Store` refuses a storage diff for a contract that does not exist (the model's `storageOk`,
+tied to the real `Finalise` by the harness), so on every reachable node non-zero storage only
+lives in contracts of the state. -/
+theorem reachable_storage_in_contracts (ops : List Op) (n a k : Nat)
+    (h : storageIn (stateBlocks (run ops) n) a k ≠ 0) : deployedIn (stateBlocks (run ops) n) a = true :=
+  storage_in_contracts (run_storageInv ops) n a k h
+
+/-- getStorageAt on every reachable node, all versions, both backends, every identifier except
+{block_hash: 0x0} (and v8 `pending`, which reads the head state): the slot's value in the denoted
+state when the contract exists there, CONTRACT_NOT_FOUND otherwise, BLOCK_NOT_FOUND when nothing
+is denoted. -/
+theorem storage_reachable (be : Backend) (ver : Ver) (ops : List Op) (id : BlockId) (a k : Nat)
+    (hv : ¬ (ver = .v8 ∧ id = .l1Accepted)) (hp : ¬ (ver = .v8 ∧ id = .pre)) (hz : id ≠ .hash 0) :
+    let nd := run ops
+    storageAt be ver nd id a k =
+      match resolve nd id with
+      | none => .err .blockNotFound
+      | some n =>
+        if deployedIn (stateBlocks nd n) a then .num (storageIn (stateBlocks nd n) a k)
+        else .err .contractNotFound :=
+  storageAt_eq be ver (run ops) id a k hv hp hz
+    (fun n _ h => storage_in_contracts (run_storageInv ops) n a k h)
+
+/-- … so the three versions and the two backends agree on getStorageAt on every reachable node
+for every identifier they share other than {block_hash: 0x0}. -/
+theorem storage_versions_agree_reachable (ops : List Op) (id : BlockId) (a k : Nat) (be be' : Backend)
+    (h8 : id ≠ .l1Accepted ∧ id ≠ .pre) (hz : id ≠ .hash 0) :
+    storageAt be .v8 (run ops) id a k = storageAt be' .v9 (run ops) id a k ∧
+      storageAt be' .v9 (run ops) id a k = storageAt be .v10 (run ops) id a k := by
+  have h1 := storage_reachable be .v8 ops id a k (fun h => h8.1 h.2) (fun h => h8.2 h.2) hz
+  have h2 := storage_reachable be' .v9 ops id a k (fun h => by cases h.1) (fun h => by cases h.1) hz
+  have h3 := storage_reachable be .v10 ops id a k (fun h => by cases h.1) (fun h => by cases h.1) hz
+  simp only at h1 h2 h3
+  rw [h1, h2, h3]
+  exact ⟨rfl, rfl⟩
+
+/-- Completeness by hash: with distinct transaction hashes, the transaction at index `i` of block
+`n` is found by its hash, its receipt names block `n` (number and hash) with that block's
+finality, and its status is that finality and its own execution result — the same finality
+getBlockWithReceipts shows for it. -/
+theorem by_hash_complete (nd : Node) (n i : Nat) (b : Block) (t : Tx) (wf : WellFormed nd)
+    (hd : TxHashesDistinct nd) (hb : nd.chain[n]? = some b) (ht : b.txs[i]? = some t) :
+    transactionByHash nd t.hash = .tx t ∧
+      transactionReceipt nd t.hash = .receipt t (finality n nd.l1) n b.hash ∧
+      transactionStatus nd t.hash = .status (finality n nd.l1) t.reverted :=
+  Juno.C08.by_hash_complete wf hd hb ht
+
+/-! ## v10 getStorageAt with INCLUDE_LAST_UPDATE_BLOCK -/
+
+/-- The flagged answer carries the same value as the plain v10 answer (plus the last update of
+the slot in the same state), and is the same error otherwise. -/
+theorem last_update_value (be : Backend) (nd : Node) (id : BlockId) (a k : Nat) :
+    (∃ v st, stateById be .v10 nd id = .ok st ∧ storageAt be .v10 nd id a k = .num v ∧
+        storageAtWithLastUpdate be nd id a k = .valueAt v (lastUpdateIn be st.blocks a k)) ∨
+      storageAtWithLastUpdate be nd id a k = storageAt be .v10 nd id a k := by
+  unfold storageAtWithLastUpdate
+  cases hs : stateById be .v10 nd id with
+  | error e => right; simp [storageAt, hs]
+  | ok st =>
+    cases h : storageAt be .v10 nd id a k with
+    | num v => left; exact ⟨v, st, rfl, rfl, rfl⟩
+    | _ => right; rfl
+
+/-- "Last update" as a fold over the chain: block `n+1` becomes the last update of a slot when
+its diff writes the slot — on the legacy backend unless it writes zero over zero. -/
+theorem last_update_is_fold (bs : List Block) (b : Block) (a k : Nat) :
+    lastUpdateIn .new (bs ++ [b]) a k =
+      (if (lookup3 b.diff.storage a k).isSome then b.number else lastUpdateIn .new bs a k) ∧
+    lastUpdateIn .legacy (bs ++ [b]) a k =
+      (match lookup3 b.diff.storage a k with
+       | some v => if v == 0 && storageIn bs a k == 0 then lastUpdateIn .legacy bs a k else b.number
+       | none => lastUpdateIn .legacy bs a k) :=
+  ⟨lastTouchedIn_snoc bs b a k, lastLoggedIn_snoc bs b a k⟩
+
+/-
+Full-strength statement (does NOT hold of juno): the two backends give the same last_update_block.
+-/
+/-- Witness: contract 0x105 deployed in block 0, block 1 writes 0 to its never-written slot 7:
+the legacy backend reports last update 0 ("never"), the new backend reports block 1. -/
+theorem last_update_backends_disagree_on_zero_over_zero :
+    let nd : Node := { chain := [
+      { number := 0, hash := 0xa0, parent := 0, root := 1, oldRoot := 0, txs := [], diff := { deployed := [(0x105, 0xc0)] } },
+      { number := 1, hash := 0xa1, parent := 0xa0, root := 1, oldRoot := 1, txs := [], diff := { storage := [(0x105, 7, 0)] } }] }
+    storageAtWithLastUpdate .legacy nd .latest 0x105 7 = .valueAt 0 0 ∧
+      storageAtWithLastUpdate .new nd .latest 0x105 7 = .valueAt 0 1 := by
+  decide
 
 /-! ## Non-vacuity: a concrete reachable node meeting the hypotheses -/
 
@@ -431,6 +676,8 @@ def exampleOps : List Op :=
   [ .store { number := 0, hash := 0xa0, parent := 0, root := 0xe0, oldRoot := 0,
              txs := [⟨0xf1, 0x13, false⟩, ⟨0xf2, 0x21, true⟩],
              diff := { deployed := [(0x105, 0xc0)], storage := [(0x105, 7, 9), (1, 5, 8)], declared := [0xc0] } },
+    .store { number := 1, hash := 0xbad, parent := 0xa0, root := 0, oldRoot := 0, txs := [],
+             diff := { storage := [(0x777, 1, 1)] } },  -- refused: storage of a contract that does not exist
     .store { number := 1, hash := 0xa1, parent := 0xa0, root := 0xe1, oldRoot := 0xe0,
              txs := [⟨0xf3, 0x40, false⟩], diff := { nonces := [(0x105, 3)], storage := [(0x105, 7, 0)] } },
     .setL1 (some 0),
@@ -450,5 +697,9 @@ example : storageAt .new .v10 (run exampleOps) (.number 0) 0x105 7 = .num 9 ∧
     storageAt .new .v10 (run exampleOps) .latest 0x105 7 = .num 0 ∧
     storageAt .legacy .v9 (run exampleOps) .latest 1 5 = .num 8 ∧
     nonce .legacy .v8 (run exampleOps) (.hash 0xa1) 0x105 = .num 3 := by decide
+example : serve .new .v8 (run exampleOps) (.blockWithTxHashes (.tag "pending")) = .pendingBlock 0xa1 ∧
+    serve .new .v9 (run exampleOps) (.blockWithTxHashes (.tag "pending")) = .err .invalidParams ∧
+    serve .new .v10 (run exampleOps) (.transactionByBlockIdAndIndex (.obj (some 0xa0) (some 7)) 1) = .tx ⟨0xf2, 0x21, true⟩ ∧
+    serve .new .v10 (run exampleOps) (.transactionByBlockIdAndIndex (.tag "latest") (-1)) = .err .invalidTxIndex := by decide
 
 end Juno.C08.Props
